@@ -136,10 +136,12 @@ def check_history(case, ctx: Ctx):
         if name == "fill":
             flat, pt = cell_index(op[1])
             w = op[2]
+            if w is not None and len(op) > 3 and op[3] == "np_int8" and w > 127:
+                w = 100  # (does not fit into the scalar type itself)
             if w is not None and len(op) > 3 and op[3]:
                 # the weight as a numpy scalar of another width (as when looping over a float32 / int16 weights array)
                 w = {"np_float32": np.float32, "np_float16": np.float16, "np_float64": np.float64, "np_longdouble": np.longdouble,
-                     "np_int32": np.int32, "np_int16": np.int16}[op[3]](w) if not (op[3].startswith("np_int") and not float(w).is_integer()) else w
+                     "np_int32": np.int32, "np_int16": np.int16, "np_int8": np.int8}[op[3]](w) if not (op[3].startswith("np_int") and not float(w).is_integer()) else w
                 ctx.label("fill_weight_" + type(w).__name__)
             if w is None:
                 ctx.call(what, h.fill, pt)
@@ -374,8 +376,8 @@ def one_op(draw):
         return [name, draw(st.sampled_from(DTYPES[:6])), draw(st.integers(-4, 6)), draw(st.booleans())]
     ts = st.lists(st.floats(0, 0.999), min_size=2, max_size=2)
     if name == "fill":
-        return [name, draw(ts), draw(st.sampled_from([None, None, 1, 2, 0.5, 1.5, 2.0, 0.25])),
-                draw(st.sampled_from([None, None, "np_float32", "np_float16", "np_float64", "np_longdouble", "np_int32", "np_int16"]))]
+        return [name, draw(ts), draw(st.sampled_from([None, None, 1, 2, 0.5, 1.5, 2.0, 0.25, 200, 100])),
+                draw(st.sampled_from([None, None, "np_float32", "np_float16", "np_float64", "np_longdouble", "np_int32", "np_int16", "np_int8"]))]
     if name == "fill_n":
         return [name, draw(st.lists(ts, max_size=4)), draw(st.sampled_from(["none", "int", "float"]))]
     if name in ("add", "iadd", "sub", "isub"):
